@@ -466,6 +466,9 @@ impl<'l, Data> EventLoop<'l, Data> {
         data: &mut Data,
     ) -> crate::Result<()> {
         let now = Instant::now();
+        // A previous dispatch that failed in `before_sleep` may have left synthetic events behind;
+        // they belong to that dispatch and must not be delivered now.
+        self.synthetic_events.clear();
         {
             let mut extra_lifecycle_sources = self
                 .handle
